@@ -943,8 +943,12 @@ impl<'a> ParseState<'a, &'a str> {
             // 三⇒三预算
             _ => Budget::new_triple(p, d, q),
         };
-        // 跳过右括弧
-        self.head_skip_after_spaces(self.format.task.budget_brackets.1);
+        // 跳过右括弧 | 缺少右括弧⇒并非预算值（如独立变量`$1`），报错以便回退到其它条目
+        self.head_skip_spaces();
+        if !self.starts_with(self.format.task.budget_brackets.1) {
+            return self.err("缺少预算值右括弧");
+        }
+        self.head_skip(self.format.task.budget_brackets.1);
         // 直接置入预算值 | 因为先前`consume_one`已经假定「未曾置入预算值」
         let _ = self.mid_result.budget.insert(budget);
         Self::ok_consume()
